@@ -315,6 +315,23 @@ func afmCase(o *suiteOut, line string) {
 		if _, err, _ := readMetrics(d1); err != nil {
 			o.fail("C15", "the written metrics can be re-read (line longer than 64 kB)", line, "nil", err.Error())
 		}
+	case "longline2":
+		// a line of more than a megabyte (a long Notice): what Write emits must be readable
+		m := randMetrics(r)
+		m.Notice = strings.TrimSpace(strings.Repeat("abcdefghi ", 130000))
+		d1, err, pan := writeMetrics(m)
+		if err != nil || pan != "" {
+			o.fail("C15", "writing metrics succeeds", line, "nil", fmt.Sprint(err, pan))
+			break
+		}
+		back, err, _ := readMetrics(d1)
+		if err != nil {
+			o.fail("C15", "the written metrics can be re-read (line longer than 1 MB)", line, "nil", err.Error())
+			break
+		}
+		if back.Notice != m.Notice {
+			o.fail("C15", "writing and re-reading returns equal metrics (long Notice)", line, "equal", fmt.Sprint(len(back.Notice)))
+		}
 	case "closure":
 		m := randMetrics(r)
 		// leave the integral domain: fractional and large numbers, odd texts
@@ -367,6 +384,7 @@ func afmCase(o *suiteOut, line string) {
 
 func suiteAFM(o *suiteOut, r *rng, tier string, n int) {
 	afmCase(o, "afm 0 longline")
+	afmCase(o, "afm 1 longline2")
 	for _, l := range corpusLines("afm") {
 		afmCase(o, l)
 		o.count("corpus cases")
